@@ -442,6 +442,41 @@ elif what.startswith("seedonly:"):
         b = get_wannier(at, psirs[0], Nit=3, random_guess=True, seed=5)
         out["differs"] = not np.array_equal(np.asarray(a), np.asarray(b))
 
+elif what == "wannier_callers":
+    # the public callers of get_wannier with every value of their switches, twice on the same SCF object (several occupied states, cubic Gamma-only cell)
+    import inspect
+
+    from eminus import SCF, Atoms
+    from eminus import orbitals
+    from eminus.dft import guess_pseudo
+
+    at = Atoms("CH4", [[0, 0, 0], [1.2, 1.2, 1.2], [-1.2, -1.2, 1.2], [1.2, -1.2, -1.2], [-1.2, 1.2, -1.2]], ecut=3, a=9, center=True)
+    scf = SCF(at, verbose="critical")
+    scf.W = guess_pseudo(scf, seed=7)
+    scf.Y = scf.W
+    scf.is_converged = True
+    diffs = []
+    for name in ("WO", "SCDM", "FLO"):
+        f = getattr(orbitals, name, None)
+        if f is None:
+            continue
+        sig = inspect.signature(f)
+        switches = [k for k, p in sig.parameters.items() if isinstance(p.default, bool) and k != "write_cubes"]
+        combos = [{}] + [{k: (not sig.parameters[k].default)} for k in switches]
+        for kw in combos:
+            try:
+                np.random.seed(11)  # noqa: NPY002  (two DIFFERENT states of the global generator: a seeded callee does not look at it)
+                a = f(scf, **kw)
+                np.random.seed(12)  # noqa: NPY002
+                b = f(scf, **kw)
+            except Exception as e:  # noqa: BLE001
+                diffs.append(dict(caller=name, arguments=kw, raised=f"{type(e).__name__}: {e}"))
+                continue
+            if not all(np.array_equal(np.asarray(x), np.asarray(y)) for x, y in zip(a, b)):
+                diffs.append(dict(caller=name, arguments=kw, max_difference=float(max(np.abs(np.asarray(x) - np.asarray(y)).max() for x, y in zip(a, b)))))
+    out["differs"] = bool(diffs)
+    out["cases"] = diffs
+
 elif what == "end2end":
     from eminus import SCF
     from eminus.dft import guess_pseudo, guess_random
